@@ -16,7 +16,8 @@ pub struct DropCase {
     pub session: SessionCase,
     /// global poll indices (1-based) at which a Pending read future is dropped
     pub drops: BTreeSet<usize>,
-    /// after which delivered-result indices the application issues a write of its own (TINY ping, reqi = index+1)
+    /// after which read attempts (0-based; completed or dropped) the application issues a write of its own
+    /// (TINY ping, reqi = attempt+1), as the timer branch of a select! loop does
     pub user_writes: BTreeSet<usize>,
 }
 
@@ -26,6 +27,9 @@ pub struct Outcome {
     pub polls: usize,
     pub dropped_in_read: usize,
     pub dropped_in_write: usize,
+    /// application frames whose write() returned Ok, in order
+    pub user_frames: Vec<Vec<u8>>,
+    pub writes_after_drop: usize,
     pub panic: Option<String>,
 }
 
@@ -46,8 +50,12 @@ pub fn drive(c: &DropCase, with_drops: bool) -> Outcome {
             let mut results: Vec<String> = vec![];
             let mut polls = 0usize;
             let (mut dr, mut dw) = (0usize, 0usize);
-            let mut user_done: BTreeSet<usize> = BTreeSet::new();
+            let mut attempt = 0usize;
+            let mut user_frames: Vec<Vec<u8>> = vec![];
+            let mut writes_after_drop = 0usize;
+            let mut finished = false;
             'session: while results.len() < max_results && polls < 100_000 {
+                let mut was_dropped = false;
                 {
                     let mut fut = Box::pin(framed.read());
                     loop {
@@ -60,7 +68,7 @@ pub fn drive(c: &DropCase, with_drops: bool) -> Outcome {
                                 let stop = s == "Err(Disconnected)" || s == "Err(framing)";
                                 results.push(s);
                                 if stop {
-                                    break 'session;
+                                    finished = true;
                                 }
                                 break;
                             },
@@ -75,6 +83,7 @@ pub fn drive(c: &DropCase, with_drops: bool) -> Outcome {
                                         dr += 1;
                                     }
                                     t2.push_event(Event::Dropped);
+                                    was_dropped = true;
                                     break;
                                 }
                                 if polls >= 100_000 {
@@ -84,20 +93,29 @@ pub fn drive(c: &DropCase, with_drops: bool) -> Outcome {
                         }
                     }
                 }
+                if finished {
+                    break 'session;
+                }
                 // the application writes something of its own between reads (as a select loop with a timer does)
-                if c.user_writes.contains(&results.len()) && !results.is_empty() && user_done.insert(results.len()) {
-                    let idx = results.len();
-                    let p = insim::insim::Tiny { reqi: insim::identifiers::RequestId((idx + 1) as u8), subt: insim::insim::TinyType::Ping };
+                if c.user_writes.contains(&attempt) {
+                    let p = insim::insim::Tiny { reqi: insim::identifiers::RequestId((attempt + 1) as u8), subt: insim::insim::TinyType::Ping };
                     let w = framed.write(p).await;
                     t2.push_event(Event::WriteReturned(format!("{:?}", w.is_ok())));
+                    if w.is_ok() {
+                        user_frames.push(user_frame(&mode, attempt));
+                        if was_dropped {
+                            writes_after_drop += 1;
+                        }
+                    }
                 }
+                attempt += 1;
             }
-            (results, polls, dr, dw)
+            (results, polls, dr, dw, user_frames, writes_after_drop)
         })
     });
     match r {
-        Ok((results, polls, dr, dw)) => Outcome { results, written: t.written(), polls, dropped_in_read: dr, dropped_in_write: dw, panic: None },
-        Err(p) => Outcome { results: vec![], written: t.written(), polls: 0, dropped_in_read: 0, dropped_in_write: 0, panic: Some(p) },
+        Ok((results, polls, dr, dw, user_frames, writes_after_drop)) => Outcome { results, written: t.written(), polls, dropped_in_read: dr, dropped_in_write: dw, user_frames, writes_after_drop, panic: None },
+        Err(p) => Outcome { results: vec![], written: t.written(), polls: 0, dropped_in_read: 0, dropped_in_write: 0, user_frames: vec![], writes_after_drop: 0, panic: Some(p) },
     }
 }
 
@@ -156,7 +174,7 @@ pub fn judge(c: &DropCase, ev: &mut Local) -> Result<(), Fail> {
     let replies = frames.iter().filter(|f| **f == reply).count();
     ensure!(replies == keepalives, "c19:keepalive-replies", "{keepalives} keep-alives delivered, {replies} replies on the wire: {}", hex(&got.written));
     let users: Vec<&Vec<u8>> = frames.iter().filter(|f| **f != reply).collect();
-    let expected_users: Vec<Vec<u8>> = c.user_writes.iter().filter(|i| **i >= 1 && **i <= base.results.len() && base.results.get(**i - 1).map(|r| r != "Err(Disconnected)" && r != "Err(framing)").unwrap_or(false)).map(|i| user_frame(&mode, *i)).collect();
+    let expected_users: Vec<Vec<u8>> = got.user_frames.clone();
     ensure!(
         users.len() == expected_users.len() && users.iter().zip(expected_users.iter()).all(|(a, b)| **a == *b),
         "c19:user-frame-damaged",
@@ -172,6 +190,9 @@ pub fn judge(c: &DropCase, ev: &mut Local) -> Result<(), Fail> {
     }
     if got.dropped_in_write > 0 {
         ev.class("dropped-in-keepalive-write");
+    }
+    if got.writes_after_drop > 0 {
+        ev.class("application-write-right-after-a-drop");
     }
     if got.dropped_in_read + got.dropped_in_write == 0 {
         ev.class("no-drop-happened");
@@ -240,7 +261,9 @@ pub fn small_script(i: usize, mode: &Mode) -> (Vec<ReadStep>, Vec<WriteStep>) {
     }
 }
 
-pub const SMALL_POLLS: usize = 14;
+pub const SMALL_POLLS: usize = 13;
+/// application writes after read attempts 0..4 are enumerated as well
+pub const SMALL_WRITES: usize = 4;
 
 pub struct SmallExhaustive;
 impl Part for SmallExhaustive {
@@ -255,7 +278,7 @@ impl Part for SmallExhaustive {
         let dc = DropCase {
             session: SessionCase { compressed: c.compressed, verify: false, steps, writes, label: format!("small script {}", c.script) },
             drops,
-            user_writes: if c.mask & 1 == 1 { [1usize, 2].into_iter().collect() } else { BTreeSet::new() },
+            user_writes: (0..SMALL_WRITES).filter(|i| c.mask >> (SMALL_POLLS + i) & 1 == 1).collect(),
         };
         judge(&dc, ev)
     }
@@ -277,16 +300,16 @@ pub fn run(run: &mut Run) {
         a Pending read future is dropped and a fresh read started; optionally the application writes a frame of its own between reads. \
         Oracle: the delivered results equal those of the same script without drops (which itself must equal the C05 model); the \
         outgoing byte stream consists of whole frames, exactly one TINY_NONE per delivered keep-alive, application frames intact and in \
-        order. Complete: every subset of the first 14 poll indices for three small scripts x 2 modes; generated: sessions of all packet \
+        order. Complete: every subset of the first 13 poll indices x every subset of application writes after the first 4 read attempts, for three small scripts x 2 modes; generated: sessions of all packet \
         kinds with many keep-alives and 0..12 drop points. Non-trivial = at least one drop actually happened while the future was Pending."
         .into();
     run.assumptions = vec![
         "dropping the future between polls is the only cancellation mechanism (what select!/timeout do)".into(),
         "stalls (no waker) are not used here: every Pending step wakes the task, so the paused clock never fires the 90 s timeout".into(),
     ];
-    let total = 3 * 2 * (1u64 << SMALL_POLLS);
+    let total = 3 * 2 * (1u64 << (SMALL_POLLS + SMALL_WRITES));
     run.enumerate(&SmallExhaustive, total, true, |i| {
-        let per = 1u64 << SMALL_POLLS;
+        let per = 1u64 << (SMALL_POLLS + SMALL_WRITES);
         Some(SmallCase { script: (i / (2 * per)) as usize, compressed: (i / per) % 2 == 1, mask: (i % per) as u32 })
     });
     // generated
@@ -297,7 +320,7 @@ pub fn run(run: &mut Run) {
         proptest::collection::vec(any::<prop::sample::Index>(), 0..8),
         proptest::collection::vec(prop_oneof![3 => (1usize..5).prop_map(WriteStep::Accept), 3 => Just(WriteStep::Pending)], 0..12),
         proptest::collection::btree_set(1usize..60, 0..12),
-        proptest::collection::btree_set(1usize..8, 0..3),
+        proptest::collection::btree_set(0usize..16, 0..5),
     )
         .prop_map(|(mut s, pend, at, writes, drops, user_writes)| {
             for (p, ix) in pend.into_iter().zip(at.into_iter()) {
